@@ -116,7 +116,9 @@ def run_jobs(jobs, nworkers, tag):
     def one(item):
         name, (module, cfg, dump) = item
         small = name.endswith("_v0") or name.endswith("groups") or name.endswith("_eq")
-        st = tlc.run_tlc(module, cfg, f"{tag}_{name}", workers=1 if small else nworkers, dump=dump, timeout=3000, heap="4g")
+        # -Xss64m: the recursive operators (sorting 216 grid points, sums) overflow the default stack of a TLC worker thread
+        st = tlc.run_tlc(module, cfg, f"{tag}_{name}", workers=1 if small else nworkers, dump=dump, timeout=3000, heap="4g",
+                         env={"JAVA_TOOL_OPTIONS": (os.environ.get("JAVA_TOOL_OPTIONS", "") + " -Xss64m").strip()})
         if st.get("timeout"):
             raise MachineryError(f"TLC timed out on {name}")
         if st.get("error") and not st.get("violation"):
@@ -1018,6 +1020,8 @@ def check(pid, tier):
 
 def _check(rep, tier, tag):
     thorough = tier == "thorough"
+    if "-Xss" not in os.environ.get("JAVA_TOOL_OPTIONS", ""):      # also for the record validation (ftable passes the environment on)
+        os.environ["JAVA_TOOL_OPTIONS"] = (os.environ.get("JAVA_TOOL_OPTIONS", "") + " -Xss64m").strip()
     rng = random.Random(seed() * 7919 + 6)
     rep.rule("TLC enumerates every (group of the catalogue, grid size, use_symmetry), every refinement step (group, grid, periodic mask, "
              "adpt_mesh, one or two refined points), every exclusion order for short K lists and every tetrahedral run (metric, thresholds) "
@@ -1031,15 +1035,15 @@ def _check(rep, tier, tag):
     nw = 4
     groups_cfg = "SPECIFICATION Spec\nINVARIANT GroupAxioms\nINVARIANT CrystallographicOrder\nINVARIANT OrthogonalAreBox\nCHECK_DEADLOCK FALSE\n"
     if thorough:
-        sizes_div = [111, 211, 121, 221, 212, 222, 311, 331, 313, 322, 232, 332, 333]
+        sizes_div = [111, 211, 121, 221, 222, 311, 331, 322, 333]
         jobs = {
             "groups": ("MC_KMeshGroups.tla", groups_cfg, True),
             "grid_loop": ("MC_KMeshGrid.tla", cfg_grid(4, True), False),
             "grid_tab": ("MC_KMeshGridTab.tla", cfg_grid(6, False), True),
-            "divide": ("MC_KMeshDivide.tla", cfg_divide(None, sizes_div, [111, 110, 100, 11], [2, 3], 8, None, False, False), True),
+            "divide": ("MC_KMeshDivide.tla", cfg_divide(None, sizes_div, [111, 110, 100, 11], [2, 3], 4, None, False, False), True),
             "divide_fullsamples": ("MC_KMeshDivide.tla", cfg_divide(["cub_Oh", "cub_T", "tet_D4h", "tet_S4", "ort_D2h", "ort_C2v", "rho_D3d"], [111, 211, 221, 222], [111, 110], [2, 3], 4,
                                                                     None, True, False), False),
-            "excl": ("MC_KMeshExcl.tla", cfg_excl(4, 6, False), False),
+            "excl": ("MC_KMeshExcl.tla", cfg_excl(4, 5, False), False),
             "tetra": ("MC_KMeshTetra.tla", cfg_tetra(["cub", "tet", "ort"], [9, 4, 2, 1], [9, 6, 4, 3, 2], 6, False), True),
             # the trigonal wedges with 4 samples per direction (6 per direction puts samples on face planes: invariant Embedding)
             "tetra_trig": ("MC_KMeshTetra.tla", cfg_tetra(["hex", "hex120"], [9, 4, 2, 1], [9, 6, 4, 3, 2], 4, False), True),
